@@ -619,6 +619,13 @@ package cache
 //@   assert at return#9: calls("middleware/cache.searchAdditionalAnswer") <= calls("(*middleware/cache.subQueryLineage).inherit")
 //@   assert at return#10: calls("middleware/cache.searchAdditionalAnswer") <= calls("(*middleware/cache.subQueryLineage).inherit")
 //@   assert at call middleware/cache.searchAdditionalAnswer#1: arg0 == msg && arg1 == lastret("(*middleware/cache.Cache).internalExchange")
+//@   # C12 ("resolving one client query performs a bounded amount of work ... alias loops ... end in an answer or
+//@   # SERVFAIL"): every alias followed, at whatever nesting level, is counted on ONE counter carried by the request
+//@   # tree's context; a sub-query is issued only while that count is within the cap, and under the context that
+//@   # carries the counter on, so the nested invocations it causes count on the same one
+//@   assert at call (*middleware/cache.Cache).internalExchange#1: lastret("(*sync/atomic.Int32).Add") <= 32 && arg1 == lastret("middleware/cache.withAliasChaseHops")
+//@   assert at call (*sync/atomic.Int32).Add#1: arg0 == lastret("middleware/cache.withAliasChaseHops", 1) && arg1 == 1
+//@   assert at call middleware/cache.withAliasChaseHops#1: arg0 == entry_ctx
 //@
 //@ # ---- C04 / C08: every denial-proof entry admitted to the shared aggressive cache - the zone's SOA entry AND each
 //@ # NSEC/NSEC3 RRset entry - gets its expiry from denialProofExpiry called with the delegation lease (cutUntil) of the
@@ -745,3 +752,13 @@ package cache
 //@   abstract
 //@   nosafety all pre
 //@   assert at call (*middleware/cache.denialProofWork).reserveHash#1: calls("(*middleware.RecursionWorkLedger).DebitBestEffort") + calls("(*middleware.RecursionWorkLedger).Debit") >= 1
+
+//@ # the request tree's alias-hop counter: the one already in the context, or a fresh one installed in the context
+//@ # that is returned with it
+//@ func withAliasChaseHops
+//@   abstract
+//@   nosafety all pre
+//@   assert at return#1: result0 == ctx && ok
+//@   assert at return#2: result0 == lastret("context.WithValue") && result1 == hops
+//@   assert at call context.WithValue#1: arg0 == ctx && dyntype(arg2, *atomic.Int32) && as(arg2, *atomic.Int32) == hops
+
